@@ -36,6 +36,8 @@ def gen(rng, tier, index):
     n = int(rng.integers(2, 40))
     m = int(rng.integers(1, 11))
     X = rng.normal(size=(n, m)) * 10.0 ** rng.uniform(-3, 3, size=m) + rng.normal(size=m) * 10.0 ** rng.uniform(-1, 3, size=m) * (rng.random(m) < 0.7)
+    if rng.random() < 0.25:  # offsets far above the spread (exactly representable shifts)
+        X = X + np.round(rng.normal(size=m) * 10.0 ** rng.uniform(4, 8))
     flags = index % 8
     wk = gens.pick(rng, ("none", "uniform", "random", "integer", "integer0"))
     w = gens.weights(rng, n, wk)
@@ -124,12 +126,15 @@ def run(case, j):
         e3 = SFS(**kw).fit(X + case["shift"], sample_weight=None if w is None else w.copy())
         T3 = e3.transform(X + case["shift"])
         amp3 = (np.abs(mu0 + case["shift"]) + sd0) / sd0
-        j.close("transformed data unchanged by a prior shift of the input", T3, T, 1e-9 * (np.abs(T) + amp + amp3) * (1 if ws else np.abs(X).max() + np.abs(case["shift"]).max() + 1))
+        rel3 = 1e-9 + 200 * np.finfo(float).eps * float(max(amp.max(), amp3.max()))
+        j.close("transformed data unchanged by a prior shift of the input", T3, T, rel3 * (np.abs(T) + amp + amp3) * (1 if ws else np.abs(X).max() + np.abs(case["shift"]).max() + 1))
     if ws:
         c = case["c"]
         e4 = SFS(atol=0.0, **kw).fit(c * X, sample_weight=None if w is None else w.copy())
         T4 = e4.transform(c * X)
-        j.close("transformed data unchanged, up to the sign of c, by a prior uniform rescaling", T4, np.sign(c) * T, 1e-9 * (np.abs(T) + amp))
+        # two independent fits: the scale carries a relative rounding error of about eps x (offset / spread)
+        rel = 1e-9 + 200 * np.finfo(float).eps * float(amp.max())
+        j.close("transformed data unchanged, up to the sign of c, by a prior uniform rescaling", T4, np.sign(c) * T, rel * (np.abs(T) + amp))
     # tolerance
     v = var0 if cw else np.array([var0.sum()])
     ref = np.abs(mu0) if cw else np.array([abs(np.average(mu0))])
